@@ -117,18 +117,53 @@ func init() {
 	props["C08"] = &PropSpec{
 		ID: "C08",
 		Jobs: func(tier string) []*Job {
+			var js []*Job
+			dsets := []int{7, 8, 9, 17, 21, 24}
+			dlp, dlq := 4, 1
+			isets, ilp := nHandSets+13, 5
 			if tier == "thorough" {
-				return lookupJobs("C08Tsr", nHandSets+187, 4, 8)
+				js = lookupJobs("C08Tsr", nHandSets+187, 4, 8)
+				dsets = []int{0, 6, 7, 8, 9, 17, 19, 21, 24, 28, 30, 33}
+				dlp, dlq = 5, 2
+				isets, ilp = nHandSets+43, 6
+			} else {
+				js = lookupJobs("C08Tsr", nHandSets+47, 3, 7)
 			}
-			return lookupJobs("C08Tsr", nHandSets+47, 3, 7)
+			for _, s := range dsets {
+				for mode := 0; mode < 5; mode++ {
+					for lp := 2; lp <= dlp; lp++ {
+						for lq := 0; lq <= dlq; lq++ {
+							if lq > 0 && lp > 4 && mode != 1 {
+								continue
+							}
+							if tier != "thorough" && lp > 3 && (mode == 1 || mode == 3 || mode == 4) && !(s == 7 && mode == 1 && lq == 0) {
+								continue // redirect configurations fork on every escaping class: longer paths in thorough
+							}
+							js = append(js, &Job{Harness: "C08Dispatch", Params: map[string]int{"set": s, "mode": mode, "lp": lp, "lq": lq}})
+						}
+					}
+				}
+			}
+			for s := 0; s < isets; s++ {
+				if s == 16 {
+					continue
+				}
+				for x := 0; x < 9; x++ {
+					for lp := 2; lp <= ilp; lp++ {
+						js = append(js, &Job{Harness: "C08Irrelevant", Params: map[string]int{"set": s, "extra": x, "lh": 0, "lp": lp}})
+					}
+					js = append(js, &Job{Harness: "C08Irrelevant", Params: map[string]int{"set": s, "extra": x, "lh": 2, "lp": 3}})
+				}
+			}
+			return js
 		},
 		Bounds: func(tier string) string {
 			if tier == "thorough" {
-				return "C08(a-c): 204 corpus route sets x every Host of 0..4 bytes x every path of 2..8 bytes (full byte alphabet, no empty segment), method GET"
+				return "C08(a-c): 204 corpus route sets x every Host of 0..4 bytes x every path of 2..8 bytes (full byte alphabet, no empty segment), method GET; (d,e): 12 sets registered under GET/POST/CONNECT x 5 trailing-slash configurations (all ignore, all redirect, none, mixed per route, router-wide redirect with per-route ignore) x every path of 2..5 bytes x every printable raw query of 0..2 bytes, Location resolved by an RFC 3986 reference resolver; (f): 63 sets x 9 extra routes x every path of 2..6 bytes (Host 0 and 2 bytes)"
 			}
-			return "C08(a-c): 64 corpus route sets x every Host of 0..3 bytes x every path of 2..7 bytes (full byte alphabet, no empty segment), method GET"
+			return "C08(a-c): 64 corpus route sets x every Host of 0..3 bytes x every path of 2..7 bytes (full byte alphabet, no empty segment), method GET; (d,e): 6 sets registered under GET/POST/CONNECT x 5 trailing-slash configurations x every path of 2..3 bytes (2..4 without redirect, and on one set with it) x every printable raw query of 0..1 bytes, Location resolved by an RFC 3986 reference resolver; (f): 33 sets x 9 extra routes x every path of 2..5 bytes (Host 0 and 2 bytes)"
 		},
-		RequiredCovers: []string{"tsr expected", "no route even after slash adjustment", "tsr expected under a matching host"},
+		RequiredCovers: []string{"tsr expected", "no route even after slash adjustment", "tsr expected under a matching host", "tsr ignored: served", "tsr redirected", "tsr but CONNECT: unmatched", "tsr neither ignored nor redirected: unmatched", "irrelevant route compared"},
 	}
 }
 
